@@ -16,14 +16,21 @@ Proof.
   rewrite N.pow_add_r. reflexivity.
 Qed.
 
+Lemma land255 n : N.land n 255 = n mod 256.
+Proof. change 255 with (N.ones 8). rewrite N.land_ones. reflexivity. Qed.
+Lemma shiftr8 n : N.shiftr n 8 = n / 256.
+Proof. rewrite N.shiftr_div_pow2. reflexivity. Qed.
+Lemma shiftl8 n : N.shiftl n 8 = 256 * n.
+Proof. rewrite N.shiftl_mul_pow2. change (2 ^ 8) with 256. lia. Qed.
+
 Lemma le_dec_enc w : forall n rest, n < 2 ^ (8 * N.of_nat w) ->
   le_dec w (le_enc w n ++ rest) = Some (n, rest).
 Proof.
   induction w as [|w IH]; intros n rest Hn.
   - cbn in *. f_equal. f_equal. lia.
   - rewrite pow8_succ in Hn.
-    cbn [le_enc le_dec app].
-    rewrite IH by (apply N.div_lt_upper_bound; lia).
+    cbn [le_enc le_dec app]. rewrite land255, shiftr8.
+    rewrite IH by (apply N.div_lt_upper_bound; lia). rewrite shiftl8.
     f_equal. f_equal. pose proof (N.div_mod n 256). lia.
 Qed.
 
@@ -32,8 +39,8 @@ Proof. revert n; induction w as [|w IH]; intros n; cbn; [reflexivity|now rewrite
 
 Lemma le_enc_bytes w : forall n, Forall (fun b => b < 256) (le_enc w n).
 Proof.
-  induction w as [|w IH]; intros n; cbn; constructor; [|apply IH].
-  apply N.mod_lt. lia.
+  induction w as [|w IH]; intros n; cbn [le_enc]; constructor; [|apply IH].
+  rewrite land255. apply N.mod_lt. lia.
 Qed.
 
 Lemma le_dec_length w : forall bs n r, le_dec w bs = Some (n, r) -> List.length bs = (w + List.length r)%nat.
